@@ -606,6 +606,20 @@ fn part_ii(decs: &[Dec], tier: Tier, shapes: &mut Vec<Value>) -> Acc {
                 m[pos] = bytes[pos];
             }
             if *dn == "PDU" {
+                // a length octet forced to its maximum WITH that many octets actually present behind
+                // it (300 filler octets appended, header length adjusted): reaches the code behind
+                // a successful long read, which a bare substitution of a short PDU never does
+                let old_len = u16::from_be_bytes([bytes[1], bytes[2]]) as usize;
+                let new_len = (old_len + 300).min(65535) as u16;
+                for pos in 4..bytes.len() {
+                    for val in [0xffu8, 0xfe] {
+                        let mut p = bytes.clone();
+                        p[pos] = val;
+                        p.extend(std::iter::repeat(0x01u8).take(300));
+                        p[1..3].copy_from_slice(&new_len.to_be_bytes());
+                        one("ii/max-length-with-filler", di, d, &p, tier, &mut acc);
+                    }
+                }
                 for l in [0u16, 1, 2, 255, 65534, 65535] {
                     m[1..3].copy_from_slice(&l.to_be_bytes());
                     one("ii/forced-length", di, d, &m, tier, &mut acc);
